@@ -206,8 +206,8 @@ class Quaternion(Vector):
 
         zero_mask = (pnorm == 0.)
         if np.any(zero_mask):
-            if np.shape(pvals) == ():
-                pnorm = 1.
+            if np.shape(pnorm) == ():
+                pnorm = np.array(1.)
                 pmask = True
             else:
                 pnorm[zero_mask] = 1.
